@@ -1217,7 +1217,10 @@ func gen() {
 	fmt.Printf("Definition sample_wire_tcp : list N := %s.\n", nl(tcpWire))
 	// TunnelIDFromString / TunnelIDToString on representative strings
 	strs := []string{"", "a", "my-tunnel-id", "1234567890123456", "12345678901234567", "tcp-tunnel-1759260000000000000-8080",
-		"tcp-tunnel-1759263600000000000-9090", "tcp-tunnel-1759260000000000000-8081", "udp-tunnel-1759260000000000000-53", "socks5-tunnel-1759260000000000000-1080"}
+		"tcp-tunnel-1759263600000000000-9090", "tcp-tunnel-1759260000000000000-8081", "udp-tunnel-1759260000000000000-53", "socks5-tunnel-1759260000000000000-1080",
+		// non-ASCII ids: at most 16 runes but more than 16 bytes, pairs sharing their first 16 bytes (the second pair's
+		// 16-byte prefix ends in the middle of a rune)
+		"隧道-华东节点-01", "隧道-华东节点-02", "tunnel-zürich-é1", "tunnel-zürich-é2", "😀😀😀😀a😀1", "😀😀😀😀a😀2"}
 	v := 0
 	if treeHashes {
 		v = 1
